@@ -10,7 +10,7 @@ CONSTANTS
   RstWidths = {20, 40, 72}
   RstIndents = {0, 4, 12, 16}
   Kinds = {"stmt", "stmt_t", "und", "imp", "pass", "cmt", "deco", "def", "class", "if", "doc", "strb"}
-  Gaps = {"0", "1", "2", "3", "4", "2s", "3s"}
+  Gaps = {"0", "2", "3", "3s"}
   MaxItems = 3
   MaxLvl = 2
   Origins = {"message", "field", "enum", "value", "service", "method"}
